@@ -17,6 +17,7 @@ import (
 	"go/constant"
 	"go/token"
 	"go/types"
+	"strings"
 
 	"golang.org/x/tools/go/ssa"
 )
@@ -112,6 +113,11 @@ func (c *symCtx) read(path string, t types.Type) (sv, bool) {
 		}
 		return v, true
 	}
+	if abstractContentElem(path, t) {
+		// a byte of a value that is represented by length and identity only: its content is not known, and
+		// an evaluation that depends on it must fail rather than read a zero
+		return sv{k: 'u', src: path}, true
+	}
 	if c.seen != nil {
 		c.seen[path] = t
 	}
@@ -124,6 +130,21 @@ func (c *symCtx) read(path string, t types.Type) (sv, bool) {
 		v.src = path
 	}
 	return v, true
+}
+
+// abstractContentElem: path is element k of an abstract string / byte slice (an argument tag, a literal, a
+// specification token or a rendered text) and t is a byte or rune — content the abstract domain does not carry.
+func abstractContentElem(path string, t types.Type) bool {
+	bt, ok := t.Underlying().(*types.Basic)
+	if !ok || bt.Info()&types.IsInteger == 0 || !strings.HasSuffix(path, "]") {
+		return false
+	}
+	for _, pre := range []string{"val:", "spec:", "lit:", "fmt", "cat"} {
+		if strings.HasPrefix(path, pre) {
+			return true // (elements of abstract integer lists are set explicitly and never get here)
+		}
+	}
+	return false
 }
 
 // zero value of a type
